@@ -90,9 +90,17 @@ def run(pid, tier, seed, gen_case, n_quick, n_thorough, rule, nontrivial, dtypes
         e, cat, car2 = gen_case(rng, car)
         cases.append((e, cat, dtype, car2 or car))
     results = []
-    for e, cat, dtype, car in cases:
-        results.append(evaluate(e, dtype))
+    import torch as _torch
+    dflt0 = _torch.get_default_dtype()
+    for ci, (e, cat, dtype, car) in enumerate(cases):
+        # torch's default dtype is module-level state the library must not depend on: every third case is evaluated under float64 as default
+        _torch.set_default_dtype(_torch.float64 if ci % 3 == 2 else dflt0)
+        try:
+            results.append(evaluate(e, dtype))
+        finally:
+            _torch.set_default_dtype(dflt0)
         dist[cat] = dist.get(cat, 0) + 1
+    dist["evaluated under default dtype float64"] = len([1 for ci in range(len(cases)) if ci % 3 == 2])
     codes = [None] * len(cases)
     unrep = set()
     if ok_make:
